@@ -969,12 +969,20 @@ func (k Keeper) DeductServiceFees(
 	consumer sdk.AccAddress,
 	serviceFees sdk.Coins,
 ) error {
-	return k.bankKeeper.SendCoinsFromAccountToModule(
-		ctx,
+	// The fees may span several denoms and the end blocker, which is not rolled back, carries
+	// on when the consumer cannot pay: a bank send debits coin by coin, so a failed send must
+	// leave nothing behind.
+	cacheCtx, writeCache := ctx.CacheContext()
+	if err := k.bankKeeper.SendCoinsFromAccountToModule(
+		cacheCtx,
 		consumer,
 		types.RequestAccName,
 		serviceFees,
-	)
+	); err != nil {
+		return err
+	}
+	writeCache()
+	return nil
 }
 
 func (k Keeper) GetPrice(
